@@ -634,6 +634,8 @@ def rule_LS(run: Run) -> RuleResult:
     # overload module
     om = repo.modules.get("labrea.overload")
     ov = repo.cls("Overloaded")
+    from .rules_switch import _lock_attrs
+    ov_locks = {f"self.{a}" for a in _lock_attrs(repo, ov)} or {"self._lock"}
     for mm, cls, fn, q in iter_functions(repo):
         if mm is not om:
             continue
@@ -654,7 +656,7 @@ def rule_LS(run: Run) -> RuleResult:
                     if isinstance(base, ast.Attribute) and base.attr == "lookup" and isinstance(base.value, ast.Name) and base.value.id == "self" and cls.name == "Overloaded":
                         if fn.name in ("__init__", "__setstate__"):
                             continue
-                        ok = "self._lock" in held.get(id(s), [])
+                        ok = any(h_ in held.get(id(s), []) for h_ in ov_locks)
                         res.add(f"{q}:write to Overloaded.lookup under self._lock", ok, mm.relpath, s.lineno, f"held: {held.get(id(s), [])}", nec)
     reg = ov.methods.get("register")
     if reg is None:
@@ -662,7 +664,7 @@ def rule_LS(run: Run) -> RuleResult:
     held_r = _with_stack(reg)
     for x in astu.walk_no_nested(reg):
         if isinstance(x, ast.Attribute) and x.attr == "lookup" and isinstance(x.value, ast.Name) and x.value.id == "self" and isinstance(x.ctx, ast.Load):
-            ok = "self._lock" in held_r.get(id(x), [])
+            ok = any(h_ in held_r.get(id(x), []) for h_ in ov_locks)
             res.add("labrea.overload.Overloaded.register:read of the table it replaces is under self._lock", ok, om.relpath, x.lineno,
                     f"held: {held_r.get(id(x), [])}" + ("" if ok else " — the read-modify-write is not atomic: a concurrent registration made between the copy and the assignment is lost"), nec)
     if not any(isinstance(s, (ast.Assign, ast.AugAssign)) and "self.lookup" in ast.unparse(s.targets[0] if isinstance(s, ast.Assign) else s.target) for s in ast.walk(reg)):
